@@ -79,7 +79,7 @@ class C11(PoolCheck):
         self.n_exh = len(self.exh)
 
     def n_cases(self, tier):
-        return self.n_exh + (8000 if tier == 'quick' else 400000)
+        return self.n_exh + (8000 if tier == 'quick' else 1000000)
 
     # ------------------------------------------------------------------
     def gen_case(self, rng, index):
